@@ -249,6 +249,11 @@ const smtBytes = `(re.* (re.range "\u{0}" "\u{ff}"))`
 // repository) through an overlay, passes input as JSON in VERIF_REPLAY_INPUT
 // and returns the combined output.
 func (r *Run) runReplayTest(pkgDir, testSrc string, input interface{}, runName string) (string, error) {
+	return r.runReplayTestFlags(pkgDir, testSrc, input, runName, "")
+}
+
+// runReplayTestFlags: as runReplayTest with extra go test flags (e.g. -race).
+func (r *Run) runReplayTestFlags(pkgDir, testSrc string, input interface{}, runName, flags string) (string, error) {
 	dir, err := os.MkdirTemp("", "govc-replay-")
 	if err != nil {
 		return "", err
@@ -265,7 +270,7 @@ func (r *Run) runReplayTest(pkgDir, testSrc string, input interface{}, runName s
 	os.WriteFile(ovFile, ovData, 0o644)
 	ctx, cancel := context.WithTimeout(context.Background(), 180*time.Second)
 	defer cancel()
-	cmd := exec.CommandContext(ctx, "bash", "-c", "ulimit -v 8000000; exec go test -overlay "+ovFile+" -vet=off -count=1 -v -timeout 60s -run '^"+runName+"$' ./"+pkgDir)
+	cmd := exec.CommandContext(ctx, "bash", "-c", ulimitFor(flags)+"exec go test "+flags+" -overlay "+ovFile+" -vet=off -count=1 -v -timeout 60s -run '^"+runName+"$' ./"+pkgDir)
 	cmd.Dir = r.repo
 	cmd.Env = append(os.Environ(), "GOFLAGS=-mod=mod", "GOPROXY=off", "GOSUMDB=off", "GOTOOLCHAIN=local", "VERIF_REPLAY_INPUT="+inFile)
 	var buf bytes.Buffer
@@ -287,4 +292,12 @@ func replayVerdict(out string) (confirmed bool, detail string) {
 		}
 	}
 	return false, "replay did not run: " + firstLines(out, 6)
+}
+
+// the race detector reserves a large virtual address range: no address-space limit for it
+func ulimitFor(flags string) string {
+	if strings.Contains(flags, "-race") {
+		return ""
+	}
+	return "ulimit -v 8000000; "
 }
